@@ -437,9 +437,13 @@ def texts(T):
     out = [text_of(n) for n in ((0, 1, 2, 7, 200) if not T else (0, 1, 2, 3, 7, 31, 32, 127, 128, 199, 200))]
     # every class of *first* character (the octets right after the optional header): low byte with the top bit set, high byte with
     # the top bit set, NUL, 0x7F / 0x80 / 0xFF boundaries, a lone character and the same followed by ASCII
-    for first in ("\u00e9", "\u0080", "\u00ff", "\u65e5", "\u8080", "\uff80", "\u007f", "\u0100", "\u0000"):
+    # ... and the characters a "tolerant" reader likes to drop: a byte-order mark (U+FEFF = octets FF FE, and its mirror U+FFFE), white space,
+    # line ends - as first and as last character (they are characters of the text like any other)
+    for first in ("\u00e9", "\u0080", "\u00ff", "\u65e5", "\u8080", "\uff80", "\u007f", "\u0100", "\u0000", "\ufeff", "\ufffe", " ", "\r", "\n"):
         out.append(first)
         out.append(first + "abc")
+    for last in ("\u0000", " ", "\r\n", "\ufeff", "\u0000\u0000"):
+        out.append("abc" + last)
     return out
 
 
